@@ -122,3 +122,9 @@ Definition cert_pipeline (perm : list (bytes * list bytes) -> list (bytes * list
 Definition limits_render {R} (fmt : bytes * (limit * limit * bytes) -> R) (perm : list entry -> list entry) (data : bytes) : outcome (list R) :=
   do l <- limits_from data;
   Ret (render bytes_ltb fmt (map (fun e : entry => let '(n, s, h, u) := e in (n, (s, h, u))) (perm (to_map l)))).
+
+(* ---- process_state.rs calculate_heuristics: `for (_, addr) in context.valid_registers() { if near(addr) { nearby += 1 }
+   if !poison && repeated(addr) { if poison_byte(addr) { poison = true } } }` — the loop over the valid registers of the crashing
+   context, for arbitrary predicates (round 5, second pass) *)
+Definition register_scan (near pois : Z -> bool) (iter : list Z) : nat * bool :=
+  fold_left (fun (acc : nat * bool) a => ((if near a then S (fst acc) else fst acc), (if negb (snd acc) && pois a then true else snd acc))) iter (O, false).
